@@ -35,6 +35,10 @@ def coq_cfg(c):
         c["dropTO"] if c["role"] == "client" else 0, c["pingInt"], c["pingTO"], c["pingSize"], b(c["restart"]), c["t0"])
 
 
+class Unmodelled(Exception):
+    """the implementation produced an observation that has no counterpart in the model's output alphabet"""
+
+
 def coq_event(ev, txt_hex="", tick_to=None):
     k = ev[0]
     t = octs(txt_hex or "")
@@ -54,15 +58,13 @@ def coq_event(ev, txt_hex="", tick_to=None):
     if k == "peerPong": return f"(EPeerPong {b(ev[1])})"
     if k == "peerViolation": return f"(EPeerViolation {t})"
     if k == "peerInvalid": return f"(EPeerInvalid {t})"
+    if k in ("sendMessageSync", "sendChopped", "tickus"):
+        raise Unmodelled(f"event {k}: the send queue is not in the Gallina model (oracle-only family)")
     if k == "tick": return f"(ETick {int(ev[1])})"
     if k == "tickrel": return f"(ETick {int(tick_to)})"
     if k == "peerDrop": return f"(EPeerDrop {b(ev[1])})"
     if k == "ownDrop": return "EOwnDrop"
     raise ValueError(k)
-
-
-class Unmodelled(Exception):
-    """the implementation produced an observation that has no counterpart in the model's output alphabet"""
 
 
 def coq_out(o):
@@ -167,6 +169,8 @@ def oracle(case, res, fw):
                 bad.append((f"{role}/{ev[0]}/malformed-output", f"step {i} {ev}: {o}"))
             if gone and k in ("http", "wdata", "wping", "wpong", "wclose", "lose", "abort", "cbopen", "cbmessage", "cbping", "cbpong", "cbclose"):
                 bad.append((f"{role}/{k}-after-onClose", f"step {i} {ev}: {o} after the close notification"))
+            if i and steps[i - 1]["state"] == "CLOSED" and k in ("http", "wdata", "wping", "wpong", "wclose", "badframe"):
+                bad.append((f"{role}/write-after-CLOSED", f"step {i} {ev}: {o} written although the connection was already CLOSED"))
             if sent_close and k in ("wdata", "wping", "wpong", "wclose"):
                 bad.append((f"{role}/{k}-after-close-frame", f"step {i} {ev}: {o} written after a close frame"))
             if k == "wclose":
@@ -187,7 +191,10 @@ def oracle(case, res, fw):
                         return f[0] != "1byte" and (f[0] is None or f[0] in WIRE_OK) and (f[1] is None or utf8_ok(bytes.fromhex(f[1])))
                     valid = [f for f in rcvd_all if frame_ok(f)]
                     if not sent_close or not rcvd_all:
-                        bad.append((f"{role}/clean-without-both-close-frames", f"step {i} {ev}: sent={sent_close} received={rcvd_all}"))
+                        queued = any(e[0] in ("sendMessageSync", "sendChopped") for e in evs)
+                        key = ("sendCloseFrame/queued-close-never-written-reported-clean" if queued and not sent_close and rcvd_all
+                               else f"{role}/clean-without-both-close-frames")
+                        bad.append((key, f"step {i} {ev}: onClose reported clean, close frame written by us: {sent_close}, close frames received: {rcvd_all}"))
                     elif not valid:
                         # only a 1-octet frame can still complete a handshake without being well-formed (it reaches
                         # onCloseFrame as an empty close); later invalid frames cannot set wasClean any more
@@ -336,7 +343,11 @@ TRUSTED = [
     "transport.close() inside connection_lost(exc) after onClose ignored, times on a 125 ms grid (exact in binary floats)",
     "Python str.encode('utf8') yields well-formed UTF-8 (encode_truncate is modelled on octets; lone surrogates raise before)",
     "not modelled: Hixie-76 (websocket_version 0), proxy connect, flash policy file, message-size limits (close 1009), "
-    "sync/chopped writes (send queue, _QUEUED_WRITE_DELAY), streaming send API, producers, TLS error reasons",
+    "streaming send API, producers, TLS error reasons",
+    "sync/chopped writes (send_queue/_trigger/_send, _QUEUED_WRITE_DELAY) are NOT in the Gallina model: C05_one_close_frame and "
+    "C05_onclose_once quantify over unqueued writes only; queued writes are covered on the implementation side by the "
+    "send-queue family judged by the property oracle (no frame of any kind after the close frame, nothing written after "
+    "CLOSED / after onClose, frames intact)",
 ]
 
 
@@ -370,7 +381,7 @@ def correspondence(ck, label, cases_by_fw, coq_limit, prop="C05", oracle_fn=None
                 cur = pending_oracle.get(key)
                 if cur is None or len(case["events"]) < len(cur[1]["events"]):
                     pending_oracle[key] = (fw, case, msg)
-            if n_model < coq_limit:
+            if n_model < coq_limit and not case.get("oracle_only"):
                 try:
                     terms.append(coq_case(fw, case, res)); origin.append((fw, i)); n_model += 1
                 except Unmodelled as e:
@@ -390,7 +401,10 @@ def correspondence(ck, label, cases_by_fw, coq_limit, prop="C05", oracle_fn=None
         ck.violation(key, f"[{fw}] {msgs[0] if msgs else msg}", {"fw": fw, "case": small}, found_input=True)
     t0 = time.time()
     badi = ck.coq_cases(f"{label}", IMPORTS, "conn_case_ok", terms, ty="conn_case", shard=100) if terms else []
-    ck.log(f"{label}: {len(terms)} sequences re-run by the Gallina model in coqc ({time.time() - t0:.1f}s), {len(badi)} disagreements")
+    if coq_limit:
+        ck.log(f"{label}: {len(terms)} sequences re-run by the Gallina model in coqc ({time.time() - t0:.1f}s), {len(badi)} disagreements")
+    else:
+        ck.log(f"{label}: judged by the independent property oracle only (this batch is not sent to coqc by design)")
     seen_shapes = 0
     for j in badi:
         if seen_shapes >= 3:
@@ -430,12 +444,17 @@ def run(ck):
                    "code/bad UTF-8, peer data/ping/pong matching or not/violation/invalid payload, 4 kinds of tick, TCP drop clean/"
                    "unclean, own drop}; (4) from CONNECTING (no handshake forced) all sequences of length <= 4 (5) over {handshake "
                    "ok/bad, sendClose, sendMessage, tick, drops} x openHandshakeTimeout {0,1,2} s; (5) random walks of length <= 12 "
-                   "(16) over the full alphabet with auto-ping and start phases 0/125/375/1000/1875 ms mixed in; every sequence on the "
+                   "(16) over the full alphabet with auto-ping and start phases 0/125/375/1000/1875 ms mixed in; (6) ORACLE ONLY (not in the "
+                   "model): all sequences of length <= 4 (5) with 1..3 queued sends over {sendMessage(sync=True), sendFrame(chopsize=1), "
+                   "sendMessage, sendClose x2, peer close, peer violation, tick 10 us, tick 20 us, tick 1 s, TCP drop, own drop}; every sequence on the "
                    "Twisted Clock or the asyncio virtual loop (the model sample on both). non-trivial = left CONNECTING; distinct = "
                    "distinct (framework, cfg, event list)")
     ck.extra_tb += TRUSTED
     regenerate_consts(ck)
+    t_build = time.time()
     broken = ck.coq_props()
+    ck.log(f"Coq: constants regenerated, Props closure built and checked in {time.time() - t_build:.1f}s "
+           "(a long time here = the 5-file proof chain was rebuilt after a model change, or the build lock was held by another check)")
     ok, out = vlib.coq_make(["Model/WsConnRun.vo"])
     if not ok:
         raise RuntimeError("WsConnRun build failed: " + out[-1500:])
@@ -484,7 +503,19 @@ def run(ck):
                 e = ["tickrel", 125 * rng.randint(0, 24)]
             evs.append(list(e))
         randoms.append(dict(cfg=cfg, events=evs))
-    ck.log(f"generated: corpus {len(corpus)}, core<= {deep_len}: {len(deep)}, timeout grid: {len(gridded)}, full alphabet: {len(full)}, "
+    # (6) the send queue (sync / chopped writes trickled out by _trigger/_send every _QUEUED_WRITE_DELAY = 10 us): NOT in
+    #     the Gallina model; implementation against the property oracle only.  All sequences of length <= 4 (thorough 5)
+    #     over the alphabet below that contain 1..3 queued sends, role x failByDrop
+    SYNC = [["sendMessageSync"], ["sendChopped"], ["sendMessage"], ["sendClose", 1000, "627965"], ["sendClose", None, None],
+            ["peerClose", 1000, "6f6b"], ["peerViolation"], ["tickus", 10], ["tickus", 20], ["tickrel", 1000], ["peerDrop", False], ["ownDrop"]]
+    syncfam = []
+    for cfg in [base_cfg(role=r, failByDrop=f) for r in ("server", "client") for f in (True, False)]:
+        for evs in seqs(SYNC, 4 if quick else 5, [["hs"]]):
+            nq = sum(1 for e in evs if e[0] in ("sendMessageSync", "sendChopped"))
+            if 1 <= nq <= 3 and (not quick or evs[1][0] in ("sendMessageSync", "sendChopped")):
+                syncfam.append(dict(cfg=cfg, events=evs, oracle_only=True))
+    ck.bump("family:sendqueue(oracle-only)", len(syncfam))
+    ck.log(f"generated: corpus {len(corpus)}, send-queue family (oracle only) {len(syncfam)}, core<= {deep_len}: {len(deep)}, timeout grid: {len(gridded)}, full alphabet: {len(full)}, "
            f"from CONNECTING: {len(conn)}, random (len<= {maxlen}): {len(randoms)}")
     ck.exhaustive = False
     # model comparison (Coq) on a budgeted, deterministic sample of every family; everything on the independent oracle
@@ -494,7 +525,7 @@ def run(ck):
     for f in fam:
         sample += rng.sample(f, min(len(f), budget // len(fam)))
     correspondence(ck, "model", {"tx": sample, "aio": sample}, coq_limit=len(sample))
-    rest = deep + gridded + full + conn + randoms
+    rest = syncfam + deep + gridded + full + conn + randoms
     correspondence(ck, "oracle", {"tx": rest[0::2], "aio": rest[1::2]}, coq_limit=0)
     for c in (corpus + randoms)[:4]:
         ck.sample(c)
